@@ -169,6 +169,9 @@ func classify(r *ev.Run, e eco, items []pending) {
 				class = "hyphen-partial-upper"
 				if !partialUpper(nonEmpty) {
 					class = "generic"
+					if zeroLowerPrereleaseUpper(nonEmpty) {
+						class = "hyphen-zero-lower"
+					}
 				}
 			} else if p.rest != "" {
 				// Truly impossible alternative(s): with them removed the
@@ -275,4 +278,24 @@ func belowZero(v string) bool {
 		}
 	}
 	return false
+}
+
+var zeroLower = regexp.MustCompile(`^[vV]?(0|[xX*])(\.(0|[xX*])){0,2}$`)
+
+// zeroLowerPrereleaseUpper reports whether every given hyphen range has a
+// lower bound that is zero in every written position (0, 0.0, 0.0.x ...) and a
+// prerelease upper bound: node-semver turns ">=0.0.0" into "any" and is left
+// with "<=upper", the library sees upper < lower.
+func zeroLowerPrereleaseUpper(alts []string) bool {
+	for _, a := range alts {
+		i := strings.Index(a, " - ")
+		if i < 0 {
+			return false
+		}
+		lo, hi := strings.TrimSpace(a[:i]), strings.TrimSpace(a[i+3:])
+		if !zeroLower.MatchString(lo) || !strings.Contains(hi, "-") {
+			return false
+		}
+	}
+	return true
 }
